@@ -143,3 +143,9 @@ package store
 //@   requires implemented != nil
 //@   ensures err == nil ==> active == self.sporkActive[implemented.SporkId]
 //@   modifies nothing
+
+// The proof momentum of a tick: the last momentum STRICTLY before the given instant (nil if there is none).
+//@ func Momentum.GetMomentumBeforeTime(self, timestamp) -> (m, err)
+//@   requires timestamp != nil
+//@   ensures err == nil && m != nil ==> m.Timestamp != nil && timenano(m.Timestamp) < timenano(timestamp)
+//@   modifies nothing
